@@ -238,7 +238,17 @@ func (c *Cholesky) SolveTo(dst *Dense, b Matrix) error {
 	}
 
 	dst.reuseAsNonZeroed(bm, bn)
-	if b != dst {
+	bU, bTrans := untranspose(b)
+	if dst == bU {
+		if bTrans {
+			// Copy does not accept the transpose of its receiver.
+			var restore func()
+			dst, restore = dst.isolatedWorkspace(bU)
+			defer restore()
+			dst.Copy(b)
+		}
+	} else {
+		dst.checkOverlapMatrix(bU)
 		dst.Copy(b)
 	}
 	lapack64.Potrs(c.chol.mat, dst.mat)
@@ -1173,7 +1183,17 @@ func (c *PivotedCholesky) SolveTo(dst *Dense, b Matrix) error {
 	}
 
 	dst.reuseAsNonZeroed(bm, bn)
-	if dst != b {
+	bU, bTrans := untranspose(b)
+	if dst == bU {
+		if bTrans {
+			// Copy does not accept the transpose of its receiver.
+			var restore func()
+			dst, restore = dst.isolatedWorkspace(bU)
+			defer restore()
+			dst.Copy(b)
+		}
+	} else {
+		dst.checkOverlapMatrix(bU)
 		dst.Copy(b)
 	}
 
